@@ -35,6 +35,14 @@ class Gen:
         self.mem_offsets = set()
         self.keys = set()
         self.features = set()
+        if self.allow.get("far"):
+            # the whole program lives behind 64 KiB of padding that is jumped over: PC, jump targets and every code
+            # offset are then three-byte quantities
+            self.a = evm.Asm(label_width=3)
+            self.a.jump("FAR0")
+            self.a.emit(bytes([rng.choice([0x00, 0xfe, 0x5b])]) * rng.choice([65536, 65587, 70000, 131072]))
+            self.a.label("FAR0")
+            self.features.add("far-code")
 
     def push_const(self):
         v = pick_const(self.rng, self.B)
@@ -820,6 +828,9 @@ def lookalike(rng, hash_table_items, with_storage=False, allow_value_side=False)
                 if rng.random() < 0.3:
                     # nested
                     a.emit(0x20, "MSTORE", "CALLER", 0, "MSTORE", 0x40, 0, "SHA3")
+                if rng.random() < 0.35:
+                    # a struct member of the mapping's value: keccak(key . const) + small constant
+                    a.emit(rng.randint(1, 9), *(["ADD"] if rng.random() < 0.7 else ["SWAP1", "ADD"]))
             elif r < 0.55:
                 _hash_array(a, rng, fake)
             elif r < 0.7 and hash_table_items:
